@@ -54,7 +54,23 @@ ASSUMPTIONS = [
     "zero-segment sub-paths (lone m, m h) are unconstrained: shapes without any l/c/v/y segment are ignored",
     "settings.STRICT is False (library default)",
 ]
-STATEMENT_STATUS: Dict[str, str] = {}
+STATEMENT_STATUS: Dict[str, str] = {
+    "C16_paint_path_statement": "counter-example proved (C16_paint_path_statement_cex, C16_rect_pts_cex): LTRect.pts "
+                                "order, open finding ltrect-pts-canonical-order",
+    "C16_paint_path_partial": "partial: all attributes of every shape of every painted path (count, order, class, "
+                              "points, bbox, original_path, flags, width, dash, colours) except the order of a "
+                              "rectangle's four points",
+    "C16_subpath_shape_partial": "partial: same exclusion, one sub-path",
+    "C16_rect_pts_horizontal": "proved", "C16_rect_pts_vertical": "proved (characterises the open finding)",
+    "C16_rect_pts_cex": "proved counter-example", "C16_paint_path_statement_cex": "proved counter-example",
+    "C16_paint_flags": "proved (regenerated table = ISO table 60)", "C16_re_path": "proved (regenerated do_re)",
+    "C16_page_ctm": "proved (regenerated process_page table)",
+    "C16_no_residue": "proved", "C16_n_paints_nothing": "proved",
+    "C16_gstack_untouched": "proved", "C16_qQ_restores": "proved", "C16_q_saves": "proved",
+    "C16_shapes (whole programs, DESIGN section 6)": "not proved: the induction over token streams "
+        "(operand stack, colour operators, q/Q) is covered by the correspondence check only; pattern colours "
+        "are an open finding",
+}
 
 # --------------------------------------------------------------------------- operators
 
@@ -605,8 +621,10 @@ class Gen:
             cor = [(x, y), (x + w, y), (x + w, y + h), (x, y + h)]
             if rng.random() < 0.5:
                 cor = [cor[0], cor[3], cor[2], cor[1]]
-            if rng.random() < 0.15:     # not axis aligned after all
-                cor[2] = (cor[2][0] + F(1, 2), cor[2][1])
+            if rng.random() < 0.3:      # not axis aligned after all: move one coordinate of one corner
+                i = rng.randint(1, 3)
+                d = rng.choice([F(1, 2), F(-3)])
+                cor[i] = (cor[i][0] + d, cor[i][1]) if rng.random() < 0.5 else (cor[i][0], cor[i][1] + d)
             self.emit("m", num(cor[0][0]), num(cor[0][1]))
             for c in cor[1:]:
                 self.emit("l", num(c[0]), num(c[1]))
@@ -898,7 +916,7 @@ def run(ctx: C.Ctx) -> None:
     run_corpus(ctx)
     rng = ctx.rng
     seen: set = set()
-    ndocs = ctx.n(60, 1500)
+    ndocs = ctx.n(240, 6000)
     per = 12
     for di in range(ndocs):
         if not ctx.time_left():
